@@ -59,8 +59,9 @@ def tlc(cfg, module, workdir, workers=8, extra=None, env=None, timeout=3600, jav
     meta = os.path.join(workdir, 'meta')
     shutil.rmtree(meta, ignore_errors=True)
     e = {}
-    if java_opts:
-        e['JAVA_TOOL_OPTIONS'] = java_opts
+    # explicit heap: the JVM default (a quarter of the RAM per process) overcommits when several
+    # validators run in parallel
+    e['JAVA_TOOL_OPTIONS'] = ((java_opts + ' ') if java_opts else '') + '-Xmx' + heap
     if env:
         e.update(env)
     cmd = ['timeout', str(timeout), 'java', '-XX:+UseParallelGC', '-Xmx' + heap, '-cp', '/opt/veriftools/tla/tla2tools.jar:/opt/veriftools/tla/CommunityModules-deps.jar',
@@ -112,9 +113,20 @@ def run_mc(comp, tier):
         rc, out = tlc(cfg, mod, os.path.join(WORK, 'mc_' + key), workers=mc.get('workers', 8), extra=['-coverage', '1'] + mc.get('extra', []),
                       timeout=mc.get('timeout', 1800), heap=mc.get('heap', '12g'))
         st = parse_mc(out)
+        if (st is None or 'Error:' in out) and 'is violated' not in out and not mc.get('_retried'):
+            # transient failure (memory pressure, JVM start): once more
+            mc = dict(mc, _retried=True)
+            time.sleep(5)
+            rc, out = tlc(cfg, mod, os.path.join(WORK, 'mc_' + key), workers=mc.get('workers', 8), extra=['-coverage', '1'] + mc.get('extra', []),
+                          timeout=mc.get('timeout', 1800), heap=mc.get('heap', '12g'))
+            st = parse_mc(out)
         if st is None or 'Error:' in out or 'is violated' in out:
-            tail = '\n'.join([ln for ln in out.splitlines() if not ln.startswith('  |') and ': ' in ln or 'rror' in ln][-40:])
+            tail = '\n'.join([ln for ln in out.splitlines() if not ln.startswith('  |') and not ln.startswith('<')][-40:])
             log(tail[-3000:])
+            try:
+                open(os.path.join(WORK, 'tlc_fail_%s.log' % key), 'w').write(out[-200000:])
+            except Exception:
+                pass
             raise ToolError('model checking of %s failed (the specification itself violates an invariant, or TLC broke)' % mc['cfg'])
         acts = parse_action_coverage(out)
         r = {'cfg': mc['cfg'], 'states': st['distinct'], 'transitions': st['generated'], 'depth': st['depth'],
@@ -226,7 +238,7 @@ def validate_file(comp, profile, runs, workdir, tag):
         with open(tf, 'w') as f:
             for r in runs:
                 f.writelines(r)
-        rc, out = tlc(cfgp, mod, os.path.join(workdir, 'tv_' + tag), workers=1, env={'TRACE': tf}, java_opts=TLC_JAVA_OPTS, timeout=1800, heap='4g')
+        rc, out = tlc(cfgp, mod, os.path.join(workdir, 'tv_' + tag), workers=1, env={'TRACE': tf}, java_opts=TLC_JAVA_OPTS, timeout=1800, heap='3g')
         st = parse_mc(out)
         if st:
             states += st['generated']
